@@ -61,7 +61,7 @@ def leaf_schema(var):
 
 
 class Grow(Process):
-    defaults = {'timestep': 1.0, 'vars': [], 'mine': []}
+    defaults = {'timestep': 1.0, 'vars': [], 'mine': [], 'starstar': False}
 
     def __init__(self, parameters=None):
         super().__init__(parameters)
@@ -74,7 +74,10 @@ class Grow(Process):
             if var.get('group'):
                 node = cell.setdefault(var['group'], {})
             node[var['name']] = leaf_schema(var)
-        return {'cell': cell}
+        schema = {'cell': cell}
+        if self.parameters.get('starstar'):
+            schema['whole'] = '**'          # a port connected to an entire (schema-less) sub-branch
+        return schema
 
     def next_update(self, timestep, states):
         self.k += 1
@@ -96,7 +99,10 @@ class Grow(Process):
             if var.get('group'):
                 node = up.setdefault(var['group'], {})
             node[var['name']] = v
-        return {'cell': up}
+        out = {'cell': up}
+        if self.parameters.get('starstar'):
+            out['whole'] = {'_updater': 'set', '_value': {'x': self.k * 10}}
+        return out
 
 
 def gen(rng, tier):
@@ -123,7 +129,7 @@ def gen(rng, tier):
     mine1 = [] if not two else names[1::2]
     return {'vars': vars_, 'overrides': overrides, 'emit_step': rng.choice([1, 1, 2, 3]), 'length': rng.choice([3, 4, 5, 6]),
             'procs': [{'timestep': 1.0, 'mine': mine0}] + ([{'timestep': 2.0, 'mine': mine1}] if two else []),
-            'cell_emit_all': rng.random() < 0.1}
+            'cell_emit_all': rng.random() < 0.25, 'starstar': rng.random() < 0.3}
 
 
 def expected_flags(scn):
@@ -196,6 +202,9 @@ def oracle_row(eng, scn, flags):
         elif k == 'list_um':
             e = [QSER.serialize(x.to(UM)) for x in val]
         exp[path] = e
+    if scn.get('starstar') and scn.get('cell_emit_all'):
+        # the schema-less variable below the branch is covered by the branch-level flag as well
+        exp[('cell', 'w', 'x')] = eng.state.get_path(('cell', 'w')).value['x']
     return exp
 
 
@@ -216,8 +225,9 @@ def run(scn, emit_step):
     flags = expected_flags(scn)
     procs, topo = {}, {}
     for i, p in enumerate(scn['procs']):
-        procs['p%d' % i] = Grow({'timestep': p['timestep'], 'vars': scn['vars'], 'mine': p['mine']})
-        topo['p%d' % i] = {'cell': ('cell',)}
+        ss = bool(scn.get('starstar')) and i == 0
+        procs['p%d' % i] = Grow({'timestep': p['timestep'], 'vars': scn['vars'], 'mine': p['mine'], 'starstar': ss})
+        topo['p%d' % i] = {'cell': ('cell',), 'whole': ('cell', 'w')} if ss else {'cell': ('cell',)}
     init = {}
     for v in scn['vars']:
         if v['kind'] in ('um', 'ser') and v.get('init_unit'):
@@ -225,6 +235,8 @@ def run(scn, emit_step):
             if v.get('group'):
                 node = node.setdefault(v['group'], {})
             node[v['name']] = q(3.0 if v['init_unit'] == 'um' else 0.003, v['init_unit'])
+    if scn.get('starstar'):
+        init.setdefault('cell', {})['w'] = {'x': 0}
     kw = {}
     ss = build_schema(scn)
     if ss:
